@@ -123,6 +123,8 @@ impl<'w> Ctx<'w> {
                 let (name, mutable, ann) = match &l.pat {
                     Pat::Ident(i) => (i.ident.to_string(), i.mutability.is_some(), None),
                     Pat::Type(t) => match &*t.pat {
+                        Pat::Ident(i) if t.ty.to_token_stream().to_string().contains('_') && matches!(&*t.ty, Type::Reference(r) if matches!(&*r.elem, Type::Infer(_))) =>
+                            (i.ident.to_string(), i.mutability.is_some(), None), // `&'static _`: a lifetime-only annotation
                         Pat::Ident(i) => (i.ident.to_string(), i.mutability.is_some(), Some((*t.ty).clone())),
                         _ => return Err("let pattern".into()),
                     },
@@ -286,7 +288,9 @@ impl<'w> Ctx<'w> {
                     _ => return Err("for pattern".into()),
                 };
                 out.push(format!("{}for {} in List.range' {} ({} - {}) do", ind(n), v, paren(&l.s), paren(&h.s), paren(&l.s)));
+                self.loop_fin.push(None);
                 let body = self.block(&f.body, n + 1, false, aliases);
+                self.loop_fin.pop();
                 self.vars.pop();
                 out.extend(body?);
                 Ok(())
@@ -308,7 +312,12 @@ impl<'w> Ctx<'w> {
                         out.extend(pre);
                         out.push(format!("{}match {} with", ind(n + 1), scrut.s));
                         out.push(format!("{}| {} =>", ind(n + 1), pat));
+                        for m in std::mem::take(&mut self.mut_pat_binds) {
+                            out.push(format!("{}let mut {} := {}", ind(n + 2), m, m));
+                        }
+                        self.loop_fin.push(Some(fin.clone()));
                         let body = self.block(&w.body, n + 2, false, &al);
+                        self.loop_fin.pop();
                         self.vars.pop();
                         out.extend(body?);
                         out.push(format!("{}| _ =>", ind(n + 1)));
@@ -323,8 +332,10 @@ impl<'w> Ctx<'w> {
                         out.push(format!("{}if !{} then", ind(n + 1), paren(&ce.s)));
                         out.push(format!("{}{} := true", ind(n + 2), fin));
                         out.push(format!("{}break", ind(n + 2)));
-                        let body = self.block(&w.body, n + 1, false, aliases)?;
-                        out.extend(body);
+                        self.loop_fin.push(Some(fin.clone()));
+                        let body = self.block(&w.body, n + 1, false, aliases);
+                        self.loop_fin.pop();
+                        out.extend(body?);
                     }
                 }
                 out.push(format!("{}if !{} then", ind(n), fin));
@@ -332,6 +343,10 @@ impl<'w> Ctx<'w> {
                 Ok(())
             }
             Expr::Break(b) if b.expr.is_none() && b.label.is_none() => {
+                // leaving a fuel-bounded `while` through `break` is a regular exit, not fuel exhaustion
+                if let Some(Some(fin)) = self.loop_fin.last() {
+                    out.push(format!("{}{} := true", ind(n), fin));
+                }
                 out.push(format!("{}break", ind(n)));
                 Ok(())
             }
@@ -422,8 +437,20 @@ impl<'w> Ctx<'w> {
                 if n == "None" {
                     return Ok("Option.none".into());
                 }
+                if i.mutability.is_some() {
+                    self.mut_pat_binds.push(lean_ident(&n));
+                }
                 Ok(self.bind(&n, ty))
             }
+            Pat::Tuple(t) => {
+                let tys = match &ty { Ty::Tuple(ts) if ts.len() == t.elems.len() => ts.clone(), o => return Err(format!("tuple pattern against {:?}", o)) };
+                let mut parts = vec![];
+                for (e, et) in t.elems.iter().zip(tys.iter()) {
+                    parts.push(self.pattern(e, et, None, aliases)?);
+                }
+                Ok(format!("({})", parts.join(", ")))
+            }
+            Pat::Paren(p) => self.pattern(&p.pat, &ty, place, aliases),
             Pat::TupleStruct(ts) => {
                 let name = path_str(&ts.path);
                 let last = name.rsplit("::").next().unwrap().to_string();
@@ -432,6 +459,7 @@ impl<'w> Ctx<'w> {
                 }
                 let inner_ty = match (&ty, last.as_str()) {
                     (Ty::Opt(t), "Some") => (**t).clone(),
+                    (Ty::Named(n), "Ok" | "Err") if n == "SearchRes" => Ty::U(64),
                     (Ty::Bound(t), "Included" | "Excluded") => (**t).clone(),
                     _ => return Err(format!("pattern {} against {:?}", name, ty)),
                 };
@@ -439,7 +467,10 @@ impl<'w> Ctx<'w> {
                     aliases.insert(i.ident.to_string(), Alias::LastOf(ptxt.clone()));
                 }
                 let inner = self.pattern(&ts.elems[0], &inner_ty, None, aliases)?;
+                let inner = if inner.contains(' ') && !inner.starts_with('(') { format!("({})", inner) } else { inner };
                 Ok(match last.as_str() {
+                    "Ok" => format!("Except.ok {}", inner),
+                    "Err" => format!("Except.error {}", inner),
                     "Some" => format!("Option.some {}", inner),
                     "Included" => format!(".included {}", inner),
                     _ => format!(".excluded {}", inner),
@@ -470,6 +501,9 @@ impl<'w> Ctx<'w> {
             let pat = match pat { Ok(p) => p, Err(e) => { self.vars.pop(); return Err(e); } };
             out.push(format!("{}match {} with", ind(n), scrut.s));
             out.push(format!("{}| {} =>", ind(n), pat));
+            for m in std::mem::take(&mut self.mut_pat_binds) {
+                out.push(format!("{}let mut {} := {}", ind(n + 1), m, m));
+            }
             let body = self.block(&i.then_branch, n + 1, tail, &al);
             self.vars.pop();
             out.extend(body?);
@@ -524,10 +558,29 @@ impl<'w> Ctx<'w> {
             None
         };
         let mut first = true;
-        for arm in &m.arms {
-            if arm.guard.is_some() {
-                return Err("match guard".into());
+        let mut skip_next = false;
+        for (ai, arm) in m.arms.iter().enumerate() {
+            if skip_next {
+                skip_next = false;
+                continue;
             }
+            // `P if g => A, P' => B` where P' is P with wildcards: `| P => if g then A else B`
+            let guarded: Option<(&Expr, &Arm)> = match &arm.guard {
+                Some((_, g)) => {
+                    let nxt = m.arms.get(ai + 1).ok_or("match guard on the last arm")?;
+                    let same_ctor = match (&arm.pat, &nxt.pat) {
+                        (Pat::TupleStruct(a), Pat::TupleStruct(b)) => path_str(&a.path) == path_str(&b.path)
+                            && b.elems.iter().all(|e| matches!(e, Pat::Wild(_))) && nxt.guard.is_none(),
+                        _ => false,
+                    };
+                    if !same_ctor || sv.is_some() {
+                        return Err("match guard (only `P(x) if g => .., P(_) => ..` is in the subset)".into());
+                    }
+                    skip_next = true;
+                    Some((&**g, nxt))
+                }
+                None => None,
+            };
             let mut al = aliases.clone();
             self.vars.push(BTreeMap::new());
             let header = if let Some(t) = &sv {
@@ -554,6 +607,9 @@ impl<'w> Ctx<'w> {
             };
             first = false;
             out.push(header);
+            for m in std::mem::take(&mut self.mut_pat_binds) {
+                out.push(format!("{}let mut {} := {}", ind(n + 1), m, m));
+            }
             // write-back of a `&mut PLACE` scrutinee bound by Some(x)
             let mut wb: Option<(String, String)> = None;
             if let (Some((ptxt, false)), Pat::TupleStruct(ts)) = (&place, &arm.pat) {
@@ -563,16 +619,42 @@ impl<'w> Ctx<'w> {
                     wb = Some((ptxt.clone(), ln));
                 }
             }
-            let res: R<Vec<String>> = match &*arm.body {
-                Expr::Block(b) => self.block(&b.block, n + 1, tail, &al),
-                other => {
-                    let mut o = vec![];
-                    let mut al2 = al.clone();
-                    let is_value = tail;
-                    self.expr_stmt(other, n + 1, is_value, tail, &mut al2, &mut o).map(|_| {
-                        if o.is_empty() { o.push(format!("{}pure ()", ind(n + 1))); }
-                        o
-                    })
+            let mut arm_body = |this: &mut Self, body: &Expr, depth: usize, al: &BTreeMap<String, Alias>| -> R<Vec<String>> {
+                match body {
+                    Expr::Block(b) => this.block(&b.block, depth, tail, al),
+                    other => {
+                        let mut o = vec![];
+                        let mut al2 = al.clone();
+                        this.expr_stmt(other, depth, tail, tail, &mut al2, &mut o).map(|_| {
+                            if o.is_empty() { o.push(format!("{}pure ()", ind(depth))); }
+                            o
+                        })
+                    }
+                }
+            };
+            let res: R<Vec<String>> = match guarded {
+                None => arm_body(self, &arm.body, n + 1, &al),
+                Some((g, nxt)) => {
+                    let c = self.cond(g);
+                    match c {
+                        Err(e) => Err(e),
+                        Ok(c) => {
+                            let mut o = vec![];
+                            self.flush_pre(n + 1, &mut o);
+                            o.push(format!("{}if {} then", ind(n + 1), c.s));
+                            match arm_body(self, &arm.body, n + 2, &al) {
+                                Err(e) => Err(e),
+                                Ok(a) => {
+                                    o.extend(a);
+                                    o.push(format!("{}else", ind(n + 1)));
+                                    match arm_body(self, &nxt.body, n + 2, &al) {
+                                        Err(e) => Err(e),
+                                        Ok(b) => { o.extend(b); Ok(o) }
+                                    }
+                                }
+                            }
+                        }
+                    }
                 }
             };
             let res = match res { Ok(r) => r, Err(e) => { self.vars.pop(); return Err(e); } };
@@ -645,6 +727,14 @@ impl World {
         if let Some(tn) = ty_name {
             generics.insert("Self".into(), Ty::Named(tn.to_string()));
         }
+        // explicit instantiations from the target line (`B=Block`)
+        for gp in impl_generics.params.iter().chain(sig.generics.params.iter()) {
+            if let GenericParam::Type(tp) = gp {
+                if let Some(inst) = opts.get(&tp.ident.to_string()) {
+                    generics.insert(tp.ident.to_string(), Ty::Named(inst.clone()));
+                }
+            }
+        }
 
         let lean_name = opts.get("as").cloned().unwrap_or_else(|| match ty_name {
             // a method named like a field of its struct (builders): Lean keeps the projection, the method gets `_fn`
@@ -655,7 +745,7 @@ impl World {
         let mut ctx = Ctx {
             w: self, vars: vec![BTreeMap::new()], widths: Rc::new(RefCell::new(vec![])), ivar_parent: Rc::new(RefCell::new(vec![])),
             pre: vec![], ret_ty: Ty::Unit, muts: vec![], generics: generics.clone(), fuel: opts.get("fuel").cloned(),
-            self_ty: ty_name.map(|s| s.to_string()), fresh: 0, val_mode: vec![],
+            self_ty: ty_name.map(|s| s.to_string()), fresh: 0, val_mode: vec![], mut_pat_binds: vec![], loop_fin: vec![],
         };
         let mut params: Vec<String> = vec![];
         let mut rebinds: Vec<String> = vec![];
